@@ -30,7 +30,7 @@ def trunc(data, props, tz):
     return data.TimePoint(truncated=True, **kw)
 
 
-def job_time(ctx, mode, props, tz, rep="ord", order="p+t", ranges=None, tzh=(-3, 3)):
+def job_time(ctx, mode, props, tz, rep="ord", order="p+t", ranges=None, tzh=(-3, 3), pdec=None):
     """t names time-of-day fields only.  The matching instants are periodic
     (86400 s if an hour is named, 3600 s if only minute(/second), 60 s if only
     a second), so `earliest match not before p` <=> match and 0 <= r - p < period."""
@@ -44,10 +44,20 @@ def job_time(ctx, mode, props, tz, rep="ord", order="p+t", ranges=None, tzh=(-3,
     eS = S if S is not None else (0 if (H is not None or MI is not None) else None)
 
     def make(e):
-        return {"p": C.point_input(e, data, "", rep, tzh=tzh, tzm=(0, 0), hmax=23)}
+        p = C.point_input(e, data, "", rep, tzh=tzh, tzm=(0, 0), hmax=23)
+        i = {"p": p, "pre": C.m_valid_point(mode, p, rep, False)}
+        if pdec:
+            # p in a decimal time-precision form (hh,ii / hh:mm,nn; dyadic fraction, integer parts symbolic)
+            from .c02 import _decimalise
+            _decimalise(p, pdec[0], pdec[1])
+        return i
 
     def pre(i):
-        return C.m_valid_point(mode, i["p"], rep, False)
+        return i["pre"]
+
+    def inst(q, qrep):
+        from .c02 import _instant_any
+        return _instant_any(mode, q, qrep)
 
     def body(i):
         p = i["p"]
@@ -64,7 +74,9 @@ def job_time(ctx, mode, props, tz, rep="ord", order="p+t", ranges=None, tzh=(-3,
         rr = C.rep_of(r)
         if rr is None or r._truncated:
             return [("a full date-time", False)]
-        sp, sr = C.m_instant(mode, p, rep), C.m_instant(mode, r, rr)
+        if r._minute_of_hour is None or r._second_of_minute is None:
+            return [("the result is written down to the second (fields below the smallest named one are zero)", False)]
+        sp, sr = inst(p, rep), C.m_instant(mode, r, rr)
         ip, ir = L(sp), L(sr)
         # local time of r in t's zone (known) or p's zone (unknown); merged arithmetic, no div/mod reaches z3
         off = (tz[0] * 3600 + tz[1] * 60) if tz is not None else (p._time_zone._hours * 3600 + p._time_zone._minutes * 60)
@@ -84,14 +96,23 @@ def job_time(ctx, mode, props, tz, rep="ord", order="p+t", ranges=None, tzh=(-3,
                 ("applying t again changes nothing", same_point_z3(r, again))]
 
     def case_of(v, i):
+        kw = C.point_case(v, "", rep)
+        if pdec and pdec[0] == "hdec":
+            kw.pop("minute_of_hour"), kw.pop("second_of_minute")
+            kw["hour_of_day_decimal"] = pdec[1]
+        elif pdec:
+            kw.pop("second_of_minute")
+            kw["minute_of_hour_decimal"] = pdec[1]
         return {"check": "trunc", "mode": mode, "props": props, "tz": list(tz) if tz else None, "order": order,
-                "p": C.point_case(v, "", rep), "kind": "time"}
+                "p": kw, "kind": "time"}
 
     def zsc(i):
         p = i["p"]
+        if pdec:
+            return {"p in a decimal precision form": z3.BoolVal(True)}
         return {"p already matches": z3.And(L(p._second_of_minute) == (eS or 0), L(p._minute_of_hour) == (eMI or 0))}
 
-    return sym_run("time[%s,%s,tz=%s,%s,%s,%s]" % (mode, props, tz, rep, order, ranges), make, pre, body, post, case_of,
+    return sym_run("time[%s,%s,tz=%s,%s,%s,%s%s]" % (mode, props, tz, rep, order, ranges, ",pdec=%s" % (pdec,) if pdec else ""), make, pre, body, post, case_of,
                    ranges=ranges, scenarios_z3=zsc,
                    scenarios=lambda i: {"t zone known": tz is not None, "t zone unknown": tz is None, "order " + order: True},
                    bounds={"truncated": props, "t zone": tz, "p offsets": "whole hours %s" % (tzh,)}, sample_every=200)
@@ -403,6 +424,12 @@ def jobs(tier):
         J.append(("job_time", dict(mode=mode, props={"hour_of_day": 6}, tz=None, order="t+p", ranges={"se": (0, 1), "mi": (0, 1), "DOY": (last - 1, last)})))
         J.append(("job_time", dict(mode=mode, props={"minute_of_hour": 30}, tz=(5, 30), order="t+p", ranges={"se": (58, 59), "mi": (28, 31), "h": (22, 23), "DOY": (last - 1, last)})))
         J.append(("job_time", dict(mode=mode, props={"hour_of_day": 6}, tz=None, rep="cal", ranges={"se": (0, 1), "mi": (0, 1), "M": (2, 3), "D": (27, 31)})))
+        # p written in a decimal precision form (hh,ii / hh:mm,nn)
+        for pdec, props, rg in ((("hdec", 0.5), {"hour_of_day": 6}, {"h": (4, 7)}), (("hdec", 0.25), {"minute_of_hour": 30}, {"h": (22, 23)}),
+                                (("mdec", 0.5), {"hour_of_day": 6}, {"h": (5, 6), "mi": (58, 59)}), (("mdec", 0.5), {"second_of_minute": 15}, {"h": (23, 23), "mi": (58, 59)}),
+                                (("hdec", 0.75), {"hour_of_day": 0}, {"h": (22, 23)})):
+            for tz in (None, (5, 30)):
+                J.append(("job_time", dict(mode=mode, props=props, tz=tz, pdec=pdec, ranges=dict(rg, DOY=(last - 1, last)))))
         T0 = {"se": (0, 0), "mi": (0, 1)}
         for wd in (1, 4, 7):
             for res in ((104, 399) if not th else (0, 104, 203, 399)):
